@@ -896,7 +896,12 @@ func populateVerificationMethod(context, didID, baseURI string,
 
 func decodeVM(vm *VerificationMethod, rawPK map[string]interface{}) error {
 	if stringEntry(rawPK[jsonldPublicKeyBase58]) != "" {
+		if !isASCII(stringEntry(rawPK[jsonldPublicKeyBase58])) {
+			return errors.New("publicKeyBase58 is not base58 encoded")
+		}
+
 		vm.Value = base58.Decode(stringEntry(rawPK[jsonldPublicKeyBase58]))
+
 		return nil
 	}
 
@@ -1602,4 +1607,16 @@ func BuildDoc(opts ...DocOption) *Doc {
 	}
 
 	return doc
+}
+
+// isASCII tells whether s has ASCII characters only: base58.Decode indexes its alphabet table with the runes of its
+// input and panics on any other rune.
+func isASCII(s string) bool {
+	for i := 0; i < len(s); i++ {
+		if s[i] >= 0x80 { //nolint:gomnd
+			return false
+		}
+	}
+
+	return true
 }
